@@ -711,6 +711,24 @@ func boundedLoop(header *ssa.BasicBlock, body map[*ssa.BasicBlock]bool) (bool, s
 
 // RuleELoops — every loop in scanner, parser and directives is bounded or
 // consumes input on every cyclic path (or leaves at EOF).
+// progressOf returns the (memoised) progress summaries of scanner, parser and
+// directives.
+func progressOf(c *core.Ctx) *progress {
+	return core.Memo(c, "progress", func() *progress {
+		pr := newProgress(c)
+		if pr.advance == nil || pr.current == nil || pr.backtr == nil || pr.curField == nil {
+			return pr
+		}
+		for _, n := range []string{"Scanner.ReadString"} {
+			if f := pr.p.Func(pkgScanner, n); f != nil {
+				pr.assume[f] = true
+			}
+		}
+		pr.summarise()
+		return pr
+	})
+}
+
 func RuleELoops(c *core.Ctx) {
 	const rule = "E-loops"
 	pr := core.Memo(c, "progress", func() *progress {
